@@ -1,40 +1,62 @@
 (* C11 - The bit-parallel distance kernel equals the edit distance it stands for.
-   STATUS: the full statements are written down below as Definitions; they are NOT yet theorems
-   (the Myers block-invariant proof is not finished).  What is tied on every run: the executable
-   models bpm_block / bpm64 / bpm256 (Bpm.v, a literal restatement of bpm.c including add256 and
-   the 256-bit shift) are compared with the implementation (both the AVX2 and the scalar build),
-   and the specification [sed] (the plain semi-global DP below) is evaluated next to them,
-   exhaustively for small alphabets/lengths and at random around every 64-symbol boundary and the
-   1024 cap.  Proved so far: basic facts about the specification. *)
-From KV Require Import Base Bpm BpmProofs.
+   PARTIAL.  Proved: the one-word routine bpm() - as restated bit by bit in BpmBits.v, with '+' as binary
+   addition with carry propagation modulo 2^64 - returns, for every text and every pattern of 1..63 symbols,
+   exactly the value of the column recurrence D[i][j] = min(D[i-1][j-1] + [p_i <> t_j], D[i-1][j] + 1,
+   D[i][j-1] + 1), D[0][j] = 0, D[i][0] = i minimised over the columns (Sellers' semi-global edit-distance
+   recurrence, [sed]).  The proof is the Myers/Hyyro argument made explicit: the cell function on delta
+   encodings, a row-serial column step equal to the recurrence, and the word-level formulas equal to the
+   row-serial step because the adder's carry chain is the chain of "horizontal delta = -1".
+   NOT yet theorems (full statements kept below as Definitions): the blocked routine (carries between 64-row
+   blocks, wildcard padding of the last block and the text padding), the 256-bit variant (lane-wise add256),
+   and that the column recurrence equals the minimum over substrings of the Levenshtein distance.  They are
+   decided on every run by comparing the executable models (bit-list and N-based, all three routines) and the
+   implementation (AVX2 and scalar builds) with each other and with [sed]: exhaustively for small alphabets
+   and lengths, at random around every multiple of 64 up to the 1024 cap. *)
+From KV Require Import Base Bpm BpmProofs BpmBits BpmBitsProofs.
 Local Open Scope Z_scope.
+
+Theorem C11_bpm64_is_the_column_recurrence : forall t p, (1 <= length p <= 63)%nat ->
+  bpm64_bits t p = sed t p.
+Proof. intros t p H. apply bpm64_bits_is_sed. exact H. Qed.
+Print Assumptions C11_bpm64_is_the_column_recurrence.
+
+(* the three layers of the argument, each for all inputs *)
+Theorem C11_cell_function : forall (e vp vn hp hn : bool) (a : Z), vp && vn = false -> hp && hn = false ->
+  let up := a + dv vp vn in
+  let l := a + dv hp hn in
+  let d := Z.min (Z.min (a + (if e then 0 else 1)) (up + 1)) (l + 1) in
+  let r := cellf e vp vn hp hn in
+  fst (fst r) && snd (fst r) = false /\ fst (snd r) && snd (snd r) = false /\
+  dv (fst (fst r)) (snd (fst r)) = d - l /\ dv (fst (snd r)) (snd (snd r)) = d - up.
+Proof. exact cell_spec. Qed.
+
+Theorem C11_word_formulas_are_the_serial_step : forall Eq VP VN hpin hnin,
+  length VP = length Eq -> length VN = length Eq -> valid VP VN ->
+  word_step Eq VP VN hnin hpin hnin = serial Eq VP VN hpin hnin.
+Proof. exact word_step_serial. Qed.
+Print Assumptions C11_word_formulas_are_the_serial_step.
 
 Definition symbols13 (l : list Z) : Prop := Forall (fun c => 0 <= c < 13) l.
 
 Definition C11_block_full_statement : Prop := forall t p,
   symbols13 t -> symbols13 p -> (1 <= length p <= length t)%nat ->
-  bpm_block t p = sed t (firstn 1024 p).
-Definition C11_bpm64_full_statement : Prop := forall t p,
-  symbols13 t -> symbols13 p -> (1 <= length p <= 63)%nat -> (length p <= length t)%nat ->
-  bpm64 t p = sed t p.
+  bpm_block_bits t p = sed t (firstn 1024 p).
 Definition C11_bpm256_full_statement : Prop := forall t p,
   symbols13 t -> symbols13 p -> (1 <= length p <= 255)%nat -> (length p <= length t)%nat ->
   bpm256 t p = sed t p.
 
-(* the specification is the distance it claims to be, at its two ends *)
+(* the specification at its two ends *)
 Theorem C11_spec_upper_bound : forall t p, sed t p <= Z.of_nat (length p).
 Proof. exact sed_le_pattern_length. Qed.
-Print Assumptions C11_spec_upper_bound.
-
 Theorem C11_spec_empty_text : forall p, sed [] p = Z.of_nat (length p).
 Proof. exact sed_empty_text. Qed.
 
-(* instances of the full statements, by evaluation (tests of the statements, not proofs of them) *)
+(* instances of the open statements, by evaluation (tests of the statements, not proofs of them) *)
 Example C11_instances :
   let t := [0;1;2;3;4;5;6;0;1;2;3;4;5;6;7;8;9;10;11;12;0;0;1;1;2] in
   let p := [2;3;9;5;6;0;1] in
-  bpm_block t p = sed t p /\ bpm64 t p = sed t p /\ bpm256 t p = sed t p /\
+  bpm_block_bits t p = sed t p /\ bpm_block t p = sed t p /\ bpm64 t p = sed t p /\ bpm256 t p = sed t p /\
   let p2 := (p ++ p ++ p ++ p ++ p ++ p ++ p ++ p ++ p ++ p)%list in
   let t2 := (t ++ t ++ t ++ t)%list in
-  bpm_block t2 p2 = sed t2 p2 /\ bpm256 t2 p2 = sed t2 p2.
+  bpm_block_bits t2 p2 = sed t2 p2 /\ bpm256 t2 p2 = sed t2 p2.
 Proof. vm_compute. repeat split; reflexivity. Qed.
